@@ -1,8 +1,44 @@
 package merr
 
 import (
-	"fmt"
+	"strings"
 )
+
+// pair joins two errors. Its text is built on demand: formatting it at every
+// Append (as fmt.Errorf("%w; %w", base, other) did) copies the text of all
+// earlier errors each time, which is quadratic in the number of errors - a
+// token with a few thousand refusing caveats made Validate allocate gigabytes.
+type pair struct {
+	first, second error
+}
+
+func (p *pair) Error() string {
+	var (
+		sb    strings.Builder
+		stack = []error{p}
+	)
+
+	for len(stack) > 0 {
+		err := stack[len(stack)-1]
+		stack = stack[:len(stack)-1]
+
+		if pp, ok := err.(*pair); ok {
+			stack = append(stack, pp.second, pp.first)
+			continue
+		}
+
+		if sb.Len() != 0 {
+			sb.WriteString("; ")
+		}
+		sb.WriteString(err.Error())
+	}
+
+	return sb.String()
+}
+
+func (p *pair) Unwrap() []error {
+	return []error{p.first, p.second}
+}
 
 func Append(base error, others ...error) error {
 	for _, other := range others {
@@ -12,7 +48,7 @@ func Append(base error, others ...error) error {
 		if base == nil {
 			base = other
 		} else {
-			base = fmt.Errorf("%w; %w", base, other)
+			base = &pair{base, other}
 		}
 	}
 
